@@ -62,6 +62,9 @@ PROPS = {
     "C10": dict(world="updater_world", level="exploration",
                 quick=dict(runs=8000, wall=300, chunk=100), thorough=dict(runs=300000, wall=1800, chunk=1000),
                 assumptions=COMMON_ASSUME + ["applied values compared with 2e-5 + 2e-4|b| (+1e-5 x total part magnitude); non-finite expectations (fractional powers of negative bases after leaving the range) are not judged"]),
+    "C11": dict(world="batch_world", level="exploration",
+                quick=dict(runs=8000, wall=400, chunk=100), thorough=dict(runs=120000, wall=2400, chunk=500),
+                assumptions=COMMON_ASSUME + ["neurons, synapses and layers are compared bit-exactly (layers use delta synapses with dyadic charge/weights and dyadic dt so the matrix reduction is exact); connection outputs and training updates use 2e-5 + 2e-4|b|"]),
     "C12": dict(world="checkpoint_world", level="fault_enumeration",
                 quick=dict(runs=400, wall=500, chunk=5), thorough=dict(runs=15000, wall=2700, chunk=20),
                 assumptions=COMMON_ASSUME + ["checkpoints are taken at step boundaries (after update()); the restore target has seen at least one step unless the checkpoint itself is the unstepped state (k = 0)",
